@@ -1,8 +1,14 @@
 //! Compiles a [`crate::ast::Program`] to a [`crate::circuit::Circuit`].
 
+#[cfg(not(feature = "verif_hooks"))]
 use std::{
     cmp::{max, min},
     collections::HashMap,
+};
+#[cfg(feature = "verif_hooks")]
+use {
+    crate::verif_hooks::HashMap,
+    std::cmp::{max, min},
 };
 
 use crate::{
